@@ -67,17 +67,17 @@ type Shape struct {
 
 // Recipe builds one object, by Parse ("parse") or by constructors ("ctor").
 type Recipe struct {
-	Via      string    `json:"via"`
-	Kind     string    `json:"kind"`
-	Shape    Shape     `json:"shape"`
-	Opts     ParseOpts `json:"opts"`
-	Dims     int       `json:"dims,omitempty"`
-	Members  string    `json:"members,omitempty"`
+	Via     string    `json:"via"`
+	Kind    string    `json:"kind"`
+	Shape   Shape     `json:"shape"`
+	Opts    ParseOpts `json:"opts"`
+	Dims    int       `json:"dims,omitempty"`
+	Members string    `json:"members,omitempty"`
 	// Style of the GeoJSON text handed to Parse (top-level recipe only):
 	// 0 compact, 1 whitespace everywhere, 2 "type" member last, 3 numbers in
 	// exponent notation, 4 = 1+2+3. The parsed value is the same in all styles.
-	Style    int       `json:"style,omitempty"`
-	Children []Recipe  `json:"children,omitempty"`
+	Style    int      `json:"style,omitempty"`
+	Children []Recipe `json:"children,omitempty"`
 	// Refs (Via == "share"): indices of EARLIER pool objects that this object
 	// wraps without copying (a child shared by two parents, as Tile38 does).
 	Refs []int `json:"refs,omitempty"`
@@ -112,7 +112,7 @@ type Op struct {
 	// Both are legal: the returned slice is the caller's memory.
 	Reuse    bool `json:"reuse,omitempty"`
 	Scribble bool `json:"scribble,omitempty"`
-	CB     *CB        `json:"cb,omitempty"`
+	CB       *CB  `json:"cb,omitempty"`
 }
 
 // Violation describes what a run found.
